@@ -209,3 +209,28 @@ Proof.
         -- exfalso. apply in_flat_map in Hr as (rb & Hrb & Hr). specialize (J4 rb Hrb). destruct rb; [destruct J4|destruct Hr|destruct Hr].
       * intros i Hi. rewrite Hlen. apply J3. exact Hi.
 Qed.
+
+(** the user's rules come first; behind them stand only rules without a body of their own *)
+Theorem link_shape bodies g ptx acts :
+  link bodies = (g, ptx, acts) ->
+  exists bs app, g = map RBody bs ++ app /\ forall rb, In rb app -> forall x, rb <> RBody x.
+Proof.
+  unfold link. destruct (link_rules (length bodies) bodies (mkl [] [] None [])) as [bs st] eqn:E. intros H. inv H.
+  destruct (link_rules_spec (length bodies) bodies _ _ _ E) as ((_ & _ & A3) & _ & _).
+  assert (I0 : linv (length bodies) (mkl [] [] None [])).
+  { split; [reflexivity|]. split; [intros n i []|]. split; [intros i Hi; discriminate|intros rb []]. }
+  destruct (A3 I0) as (_ & _ & _ & J4).
+  exists bs, (l_app st). split; [reflexivity|]. intros rb Hrb x Hx. specialize (J4 rb Hrb). subst rb. exact J4.
+Qed.
+
+(** with the emission theorem (Proofs/EmitWF.v): every tree these passes produce is emitted well *)
+From PegV Require Import Model.Emit Proofs.EmitWF.
+Theorem emit_linked_wellformed bodies g ptx acts :
+  link bodies = (g, ptx, acts) ->
+  forall ast inline asu undef,
+    Forall (fun o => match o with Some F => fn_ok F | None => True end) (emit_all g ast inline asu undef).
+Proof.
+  intros H ast inline asu undef.
+  destruct (link_shape bodies g ptx acts H) as (bs & app & -> & Happ).
+  apply emit_all_wellformed_linked. exact Happ.
+Qed.
